@@ -465,3 +465,42 @@ def c08h(ctx):
                               cname, st.name, walk, lname))
         if n < 2:
             raise Undecided('%s: fewer than 2 accesses to the level table found' % cname)
+
+
+@rule('C08.i', floor=2)
+def c08i(ctx):
+    """every response contains the correct image, also when another request stores the tile between the batch load of this request and
+    its existence check: TileManager._load_tile_coords partitions the requested tiles into "has to be created" and "is in the cache";
+    a tile of the second kind that the batch load did not deliver (its source is still None) is loaded before the collection is
+    returned.  Without that step the tile is neither created nor loaded and the answer is an empty tile"""
+    fn = ctx.fn('mapproxy/cache/tile.py:TileManager._load_tile_coords')
+    g = fn.cfg
+    loads = sorted(g.find(lambda x: is_call(x, 'self.cache.load_tiles', 'self.cache.load_tile')), key=lambda nx: order_key(nx[1]))
+    parts = g.find(lambda x: is_call(x, 'self._is_tile_missing'))
+    if not parts or not loads:
+        raise Undecided('_load_tile_coords: batch load / partition not found')
+    pn = parts[0][0]
+    late = [(n, x) for n, x in loads if g.reaches_avoiding(pn, n) and n != loads[0][0]]
+    ok = bool(late)
+    detail = 'no load after the existence check'
+    for n, x in late:
+        arg = x.args[0] if x.args else None
+        # what is loaded late: the tiles that are judged cached (`_is_tile_missing` false) and still have no image
+        apps = [a for a in fn.walk() if arg is not None and isinstance(arg, ast.Name) and is_call(a, arg.id + '.append')]
+        good = bool(apps)
+        for a in apps:
+            an = g.node_for(a)
+            good = good and g.guarded(an, lambda at: at.mentions(lambda y: is_call(y, 'self._is_tile_missing')), False) and \
+                (g.guarded(an, lambda at: at.mentions(lambda y: is_call(y, 'is_missing')), True) or
+                 g.guarded(an, lambda at: at.op == '==' and '.source' in at.text and 'None' in at.text, True))
+        if not good:
+            ok = False
+            detail = 'the late load does not cover exactly the cached tiles without image'
+        # it happens on the way to every return that follows the partition
+    rets = [r for r in g.find_stmts(lambda s: isinstance(s, ast.Return)) if g.reaches_avoiding(pn, r)]
+    ok = ok and bool(rets)
+    ctx.check(ok, 'TileManager._load_tile_coords:late-tiles-loaded', 'tiles that are cached but were not delivered by the batch load are loaded after the existence check', fn,
+              fail='%s: a tile stored by a concurrent request between the batch load and the existence check is answered as an empty tile' % detail)
+    im = ctx.fn('mapproxy/cache/tile.py:TileManager._is_tile_missing')
+    ok = any(is_call(x, 'self.is_cached') for x in im.walk())
+    ctx.check(ok, 'TileManager._is_tile_missing:asks-the-cache', 'the existence check asks the cache again (it can see tiles stored after the batch load)', im)
